@@ -5,7 +5,7 @@ from hypothesis import strategies as st
 
 from vf import gen, refmodel as R
 from vf.common import Sub, require
-from vf.props.c03 import born_rows, ref_grads
+from vf.props.c03 import born_rows, ref_grads, MIN_ROW_PROB
 
 PROPERTY = "C06"
 RULE = ("Generated training runs: state type (3), n 1..3, N 1..9 rows (bases per row for complex/density, first row all-Z), "
@@ -76,7 +76,9 @@ def check(case):
     sc = case["state"]
     t, n = sc["type"], sc["n"]
     state = gen.build_state(sc)
-    rows = born_rows(case)
+    rows, probs = born_rows(case, with_probs=True)
+    if min(probs) < MIN_ROW_PROB:
+        return {"nontrivial": False, "excluded": 1, "labels": ["excluded:row-probability<1e-9"]}
     N = len(rows)
     data = R.rows_from_indices([k for _, k in rows], n)
     bases = np.array([list(b) for b, _ in rows]).reshape(N, n)
